@@ -105,9 +105,11 @@ def text(d):
 
 
 def _plain_issubclass(c, d):
-    """issubclass for classes; families made by a parametrising metaclass are compared through their mro only
-    (so that no overridden __subclasscheck__ of the library under test is consulted)."""
-    if _is_param_meta(c) or _is_param_meta(d):
+    """issubclass for classes.  When the candidate superclass d belongs to a family made by a parametrising
+    metaclass only the mro is read (so that the overridden __subclasscheck__ of the library under test is never
+    consulted); when d is an ordinary class or ABC the builtin issubclass is the ground truth (it runs d's own
+    check, e.g. the __subclasshook__ of collections.abc.Sized, never the library's)."""
+    if _is_param_meta(d):
         return d in c.__mro__
     return issubclass(c, d)
 
